@@ -2347,7 +2347,13 @@ class HedgeRisks(Algo):
             i = d.index.get_loc(target.now)
             data.append((i, d))
 
-        hedge_risk = np.array([[_get_unit_risk(s, d, i) for (i, d) in data] for s in securities])
+        # risk per unit of position, i.e. including the instrument's multiplier
+        # (the same quantity UpdateRisk accumulates)
+        def _multiplier(s):
+            node = target.children.get(s) or target._lazy_children.get(s)
+            return getattr(node, "multiplier", 1.0)
+
+        hedge_risk = np.array([[_get_unit_risk(s, d, i) * _multiplier(s) for (i, d) in data] for s in securities])
 
         # Get hedge ratios
         if self.pseudo:
